@@ -199,6 +199,17 @@ chk(
     category="fault_enumeration",
 )
 
+chk(
+    "C11", "wdverif/props/c11.py",
+    "differential stream oracle: one history observed by an unfiltered and k filtered watches of the same observer; collapse(filter(unfiltered)) must equal collapse(filtered); logical quiescence drains (FIONREAD, parked poll, parked delay-queue consumer)",
+    "Exploration: paced histories biased to move-out, move-in of trees, directories created after start with later activity inside, "
+    "opens/closes, each observed by 1 unfiltered + 6 (thorough 8) filtered watches; filters: every concrete class, FileSystemEvent, "
+    "FileSystemMovedEvent, pairs, random subsets of 3-6; recursive/non-recursive; normal/full emitter; sequences compared after "
+    "collapsing adjacent identical events.",
+    "Trusted: the descriptor ledger's poll wrapper and ioctl(FIONREAD) for quiescence; default 0.5 s pairing delay; nested bursts are not "
+    "generated here (their timing-dependent walk duplicates are C03's subject).",
+)
+
 _PENDING = "check not built yet in this round of work (planned in DESIGN.md section 3); not claimed until its monitor exists"
 _built = {c["id"] for c in CHECKS}
 for n in range(1, 21):
